@@ -176,12 +176,12 @@ PROPS = {
     "C20": {
         "trusted_base": COMMON_TB + ["IEEE-754: arithmetic on the generated dyadic doubles (small integers times powers of 4) is exact, so the integer model and the f64 code coincide"],
         "assumptions": COMMON_ASSUME + [
-            "the mass bracket and the footprint inclusion are evaluated on the implementation's output with exact integer arithmetic by the harness (implementation-vs-definition), not proved",
+            "the mass bracket is proved on the model (selection_mass_bracket, on selectWithMass whose cells are proved to be those of selectCells, the function the correspondence ties to the code) under the hypothesis NotSameCell; it is ALSO evaluated on the implementation's output with exact integer arithmetic by the harness, like the footprint inclusion",
             "reverse_recursive_descent_rev recursing into the non-reversed function is transliterated as is (the property does not constrain which equal-valued sub-cells are taken)"],
         "rule": "random multi-order maps of 0..4 disjoint cells over depths 0..2 with values in {0,1,2,3}(x4) scaled so that every /4 is exact; threshold pairs drawn from {0, total, every cumulative "
                 "sum, inside the last cell before each sum, one unit / one finest piece below each sum, random}; all 16 combinations of {asc,desc} x {strict,non-strict} x {split,no-split} x "
                 "{direct,reverse}: exact correspondence of the selected ranges + mass bracket + footprint inclusion on the implementation output. distinct_nontrivial = distinct op lines with a non-empty map.",
-        "explanation": "theorems: accumulation loops = maximal prefix, sub-cell loop = Euclidean division, descent total on dyadic values; correspondence + exact mass check",
+        "explanation": "theorems: accumulation loops = maximal prefix, sub-cell loop = Euclidean division, descent total on dyadic values, enclosed value of the four descents, mass bracket of the whole selection (NotSameCell, necessity proved); correspondence + exact mass check",
     },
     "C14": {
         "needs_bins": True,
